@@ -285,21 +285,43 @@ impl PartialEq for Value {
                 .try_into()
                 .map(|a: u64| a == *b)
                 .unwrap_or(false),
-            (Value::Int(a), Value::Float(b)) => (*a as f64) == *b,
+            (Value::Int(a), Value::Float(b)) => cmp_int_float(*a as i128, *b) == Some(Ordering::Equal),
             (Value::UInt(a), Value::Int(b)) => a
                 .to_owned()
                 .try_into()
                 .map(|a: i64| a == *b)
                 .unwrap_or(false),
-            (Value::UInt(a), Value::Float(b)) => (*a as f64) == *b,
-            (Value::Float(a), Value::Int(b)) => *a == (*b as f64),
-            (Value::Float(a), Value::UInt(b)) => *a == (*b as f64),
+            (Value::UInt(a), Value::Float(b)) => cmp_int_float(*a as i128, *b) == Some(Ordering::Equal),
+            (Value::Float(a), Value::Int(b)) => cmp_int_float(*b as i128, *a) == Some(Ordering::Equal),
+            (Value::Float(a), Value::UInt(b)) => cmp_int_float(*b as i128, *a) == Some(Ordering::Equal),
             (_, _) => false,
         }
     }
 }
 
 impl Eq for Value {}
+
+/// Compares a 64-bit integer (signed or unsigned, widened to `i128`) with a double by the
+/// numbers they denote. Casting the integer to `f64` instead would round it (above 2^53) and
+/// make distinct numbers compare equal.
+fn cmp_int_float(i: i128, f: f64) -> Option<Ordering> {
+    if f.is_nan() {
+        return None;
+    }
+    // Every 64-bit integer lies in [-2^63, 2^64).
+    if f >= 18446744073709551616.0 {
+        return Some(Ordering::Less);
+    }
+    if f < -9223372036854775808.0 {
+        return Some(Ordering::Greater);
+    }
+    // `f` is now in [-2^63, 2^64): its integral part converts to i128 exactly.
+    let whole = f.trunc();
+    match i.cmp(&(whole as i128)) {
+        Ordering::Equal => 0.0_f64.partial_cmp(&(f - whole)),
+        unequal => Some(unequal),
+    }
+}
 
 impl PartialOrd for Value {
     fn partial_cmp(&self, other: &Self) -> Option<Ordering> {
@@ -322,7 +344,7 @@ impl PartialOrd for Value {
                     // If the i64 doesn't fit into a u64 it must be less than 0.
                     .unwrap_or(Ordering::Less),
             ),
-            (Value::Int(a), Value::Float(b)) => (*a as f64).partial_cmp(b),
+            (Value::Int(a), Value::Float(b)) => cmp_int_float(*a as i128, *b),
             (Value::UInt(a), Value::Int(b)) => Some(
                 a.to_owned()
                     .try_into()
@@ -330,9 +352,9 @@ impl PartialOrd for Value {
                     // If the u64 doesn't fit into a i64 it must be greater than i64::MAX.
                     .unwrap_or(Ordering::Greater),
             ),
-            (Value::UInt(a), Value::Float(b)) => (*a as f64).partial_cmp(b),
-            (Value::Float(a), Value::Int(b)) => a.partial_cmp(&(*b as f64)),
-            (Value::Float(a), Value::UInt(b)) => a.partial_cmp(&(*b as f64)),
+            (Value::UInt(a), Value::Float(b)) => cmp_int_float(*a as i128, *b),
+            (Value::Float(a), Value::Int(b)) => cmp_int_float(*b as i128, *a).map(Ordering::reverse),
+            (Value::Float(a), Value::UInt(b)) => cmp_int_float(*b as i128, *a).map(Ordering::reverse),
             _ => None,
         }
     }
